@@ -48,8 +48,10 @@ class DBusProperty:
             instance._dbusProperties = {}
 
         if self.interface is None:
-            # Force object to set it
-            instance._getProperty('', self.pname)
+            # Force object to set it. Every class in the hierarchy is
+            # visited: a subclass may declare the same property name
+            for _ in instance._iterIFaceCaches():
+                pass
 
         if self.key is None:
             self.key = self.interface + self.pname
@@ -62,8 +64,10 @@ class DBusProperty:
             instance._dbusProperties = {}
 
         if self.iprop is None:
-            # Force object to set it
-            instance._getProperty('', self.pname)
+            # Force object to set it. Every class in the hierarchy is
+            # visited: a subclass may declare the same property name
+            for _ in instance._iterIFaceCaches():
+                pass
 
         if self.key is None:
             self.key = self.interface + self.pname
